@@ -20,7 +20,7 @@ Local Open Scope N_scope.
 Definition run_forest_stats (s : sx) : sx :=
   let F := forest_of_sx s in
   L [ofB (forest_wf F); A (root_count F); A (ambiguities F); ofB (forest_nodup F);
-     sx_of_otree (first_tree F)].
+     sx_of_otree (first_tree F); ofB (forest_distinct_ok F)].
 
 (* 2: index decoding: (forest (i ...)) -> ((unchecked checked) ...) *)
 Definition run_forest_index (s : sx) : sx :=
